@@ -23,8 +23,8 @@ fn main() {
     let samples: Vec<(&str, Vec<Rec>)> = vec![
         ("packed", vec![Rec::Msg { num: 7, len: Len::Exact, lpad: 0, fields: vec![Rec::Msg { num: 5, len: Len::Exact, lpad: 0, fields: vec![
             Rec::PackedVar { num: 7, len: Len::Exact, elems: vec![v(1), v(300), v(u64::MAX)], cut: 0 },
-            Rec::PackedFix { num: 4, len: Len::Exact, wide: false, n: 3, extra: 0 },
-            Rec::PackedFix { num: 10, len: Len::Exact, wide: true, n: 2, extra: 0 },
+            Rec::PackedFix { num: 4, len: Len::Exact, wide: false, n: 3, stray: vec![] },
+            Rec::PackedFix { num: 10, len: Len::Exact, wide: true, n: 2, stray: vec![] },
         ] }] }]),
         ("groups-and-unknown", vec![Rec::Varint { num: 1, v: v(8) }, Rec::Group { num: 3, end: false }, Rec::Group { num: 3, end: true }, Rec::Bytes { num: 15, len: Len::Exact, lpad: 0, data: b"skipped".to_vec() }, Rec::Fixed64 { num: 9, v: 1 }, Rec::Fixed32 { num: 10, v: 2 }]),
         ("overlong-varints", vec![Rec::Varint { num: 1, v: V { v: 8, pad: 2 } }, Rec::Bytes { num: 2, len: Len::Exact, lpad: 3, data: b"name".to_vec() }]),
